@@ -187,6 +187,7 @@ def project_adapt(sc, run):
         if d["adapt"]["draw"] == max(num_tune - 1, 0):
             bar_final = sval(d["out"]["stats"], "step_size_bar")
     good_pts = []      # (position, gradient) of the accepted draws so far, in order
+    advanced = False   # has the step-size estimator been advanced since the last (re-)run of the search?
     grad_based = ao.get("mass_matrix_options", {}).get("use_grad_based_estimate", True)
     for d in draws:
         a, o = d["adapt"], d["out"]
@@ -256,8 +257,13 @@ def project_adapt(sc, run):
             inband = (bf * (1 - j) * (1 - 1e-12) <= step <= bf * (1 + j) * (1 + 1e-12))
             barsame = (bar_bits == bar_final)
         stepok = math.isfinite(step) and step > 0
-        # the bound is stated for dual-averaging updates; a (re-)run of the doubling search installs its own result
-        if method == "DualAverage" and not a.get("research", False):
+        # the bound is stated for dual-averaging *updates*: the step the doubling search installs (at set_position or
+        # when it is re-run) is not an update, and stays in force until the estimator is advanced for the first time
+        if d["ss"]:
+            advanced = True
+        if a.get("research", False):      # the re-run happens after the estimator was fed and re-creates it
+            advanced = False
+        if method == "DualAverage" and advanced and not a.get("research", False):
             stepok = stepok and step <= max_step * (1 + j) * (1 + 1e-12)
         if d["ret"] is not None:
             idx, div = d["ret"]["idx"], d["ret"]["div"]
